@@ -143,6 +143,39 @@ impl Property for P {
         }
         match guarded(|| VerifMonitoredItem::sanitize_sampling_interval(st, c.r_samp)) { Ok(s) => out.push(canon(s)), Err(_) => out.push(-2) }
         match guarded(|| VerifMonitoredItem::sanitize_queue_size(st, c.r_q as usize)) { Ok(q) => out.push(q as i128), Err(_) => out.push(-2) }
+        // the interval a monitored item holds after MonitoredItem::new and after MonitoredItem::modify with the same
+        // request: no filter, a DataChangeFilter, an EventFilter
+        {
+            use opcua::server::address_space::AddressSpace;
+            static AS: OnceLock<AddressSpace> = OnceLock::new();
+            let space = AS.get_or_init(AddressSpace::new);
+            let now = chrono::Utc::now();
+            let filters = [ExtensionObject::null(),
+                ExtensionObject::from_encodable(ObjectId::DataChangeFilter_Encoding_DefaultBinary,
+                    &DataChangeFilter { trigger: DataChangeTrigger::StatusValue, deadband_type: 0, deadband_value: 0.0 }),
+                ExtensionObject::from_encodable(ObjectId::EventFilter_Encoding_DefaultBinary,
+                    &EventFilter { select_clauses: None, where_clause: ContentFilter { elements: None } })];
+            for f in filters.iter() {
+                let params = MonitoringParameters { client_handle: 1, sampling_interval: c.r_samp, filter: f.clone(), queue_size: 1, discard_oldest: true };
+                let item_to_monitor = ReadValueId { node_id: NodeId::new(2, 77u32), attribute_id: AttributeId::Value as u32, index_range: UAString::null(), data_encoding: QualifiedName::null() };
+                let create = MonitoredItemCreateRequest { item_to_monitor, monitoring_mode: MonitoringMode::Reporting, requested_parameters: params.clone() };
+                match guarded(|| VerifMonitoredItem::new(&now, 1, TimestampsToReturn::Both, st, &create)) {
+                    Ok(Ok(mut item)) => {
+                        out.push(canon(item.sampling_interval()));
+                        // created with an ordinary interval first, then modified to the requested one
+                        let plain = MonitoringParameters { sampling_interval: 500.0, ..params.clone() };
+                        let create2 = MonitoredItemCreateRequest { requested_parameters: plain, ..create.clone() };
+                        if let Ok(Ok(i2)) = guarded(|| VerifMonitoredItem::new(&now, 2, TimestampsToReturn::Both, st, &create2)) { item = i2; }
+                        let modify = MonitoredItemModifyRequest { monitored_item_id: 2, requested_parameters: params.clone() };
+                        match guarded(|| { let _ = item.modify(st, space, TimestampsToReturn::Both, &modify); item.sampling_interval() }) {
+                            Ok(v) => out.push(canon(v)), Err(_) => out.push(-2),
+                        }
+                    }
+                    Ok(Err(_)) => { out.push(-3); out.push(-3); }
+                    Err(_) => { out.push(-2); out.push(-2); }
+                }
+            }
+        }
         let valid = !c.min_pub.is_nan() && !c.min_samp.is_nan() && 1 <= c.def_ka && c.def_ka <= c.max_ka
             && 3 * (c.max_ka as u64) <= c.max_lt as u64 && c.max_q >= 1;
         let fclass = |f: f64| if f.is_nan() { "nan" } else if f.is_infinite() { "inf" } else if f < 0.0 { "neg" } else if f == 0.0 { "zero" } else { "pos" };
